@@ -269,7 +269,8 @@ func (cf *clientFormat) writePacketRTP(pkt *rtp.Packet, ntp time.Time) error {
 
 	maxPlainPacketSize := cf.cm.c.MaxPacketSize
 	if cf.cm.srtpOutCtx != nil {
-		maxPlainPacketSize -= srtpOverhead
+		// the master key identifier, when there's one, is appended to every packet
+		maxPlainPacketSize -= srtpOverhead + len(cf.cm.srtpOutCtx.mki)
 	}
 
 	plain := make([]byte, maxPlainPacketSize)
